@@ -45,12 +45,33 @@ fn cfg_for(kind: Kind, phase: &str, tier: Tier, index: u64) -> GenCfg {
     match kind {
         // the validity of the emitted Go is checked under every generator bias
         Kind::C02 | Kind::C01 => {
-            c.focus = [Focus::None, Focus::Generics, Focus::Closures, Focus::Effects, Focus::Scopes][(index % 5) as usize]
+            c.focus = [Focus::None, Focus::Generics, Focus::Closures, Focus::Effects, Focus::Scopes, Focus::Traits][(index % 6) as usize];
+            // traits, impls, every method call form, bounded generics and trait objects in
+            // every third program (and in all trait-focused ones)
+            c.traits = c.focus == Focus::Traits || (index / 6) % 3 == 0;
         }
-        Kind::C07 => c.focus = Focus::Generics,
-        Kind::C08 => c.focus = Focus::Closures,
-        Kind::C09 => c.focus = Focus::Effects,
-        _ => {}
+        Kind::C07 => {
+            c.focus = Focus::Generics;
+            // calls made through trait bounds: bounded generic functions at several implementing types
+            c.traits = index % 2 == 1;
+        }
+        Kind::C08 => {
+            c.focus = Focus::Closures;
+            // closures that capture trait objects / call methods of captured values
+            c.traits = index % 3 == 1;
+        }
+        Kind::C09 => {
+            c.focus = Focus::Effects;
+            c.traits = index % 3 == 1;
+        }
+    }
+    // the package layout keeps traits and impls in the entry package; programs split over
+    // packages are generated without them (C14/C16/C17 cover traits across packages)
+    if phase == "multipkg" {
+        c.traits = false;
+        if c.focus == Focus::Traits {
+            c.focus = Focus::None;
+        }
     }
     c
 }
@@ -219,6 +240,161 @@ fn main() {
 "#, "2\n"),
 ];
 
+// ------------------------------------------------ extern "go" bindings (C02)
+//
+// Programs that bind Go functions from packages whose import paths have one to four segments;
+// some bindings are called (from main, from a helper, from a closure), some never. miniGo does not
+// know these packages (a call is `Unsupported`), so the oracle here is Go's import rule itself:
+// every import's binding name (last path segment) is used as a qualifier, every qualifier has its
+// import, no import is listed twice; anything miniGo can judge before it meets the unknown package
+// is judged too.
+
+const GO_PKGS: [(&str, &str); 9] = [
+    ("strings", "ToUpper"),
+    ("path/filepath", "Base"),
+    ("go/build/constraint", "Mangle"),
+    ("net/http/httputil", "Dump"),
+    ("golang.org/x/text/cases", "Fold"),
+    ("github.com/user/repo/util", "Trim"),
+    ("unicode/utf8string", "Clip"),
+    ("a/b/c/d/deep", "Id"),
+    ("regexp/syntax", "Simplify"),
+];
+
+fn make_extern_case(bytes: &[u8]) -> Case {
+    let mut d = Dec::new(bytes);
+    let n = 1 + d.below(4);
+    let mut decls = String::new();
+    let mut helpers = String::new();
+    let mut body = String::new();
+    let mut labels: Vec<String> = vec!["extern".into()];
+    let mut called: Vec<&str> = vec![];
+    let mut declared: Vec<&str> = vec![];
+    for i in 0..n {
+        let (path, sym) = GO_PKGS[d.below(GO_PKGS.len())];
+        let segs = path.split('/').count();
+        labels.push(format!("extern:segments-{}", segs.min(4)));
+        if declared.contains(&path) {
+            labels.push("extern:same-package-twice".into());
+        }
+        declared.push(path);
+        // with or without the explicit Go symbol
+        if d.bool() {
+            decls.push_str(&format!("extern \"go\" \"{path}\" \"{sym}\" ext{i}(s: string) -> string\n"));
+        } else {
+            decls.push_str(&format!("extern \"go\" \"{path}\" ext{i}(s: string) -> string\n"));
+        }
+        match d.below(5) {
+            0 => labels.push("extern:never-called".into()),
+            1 => {
+                helpers.push_str(&format!("fn via{i}(s: string) -> string {{ ext{i}(s + \"!\") }}\n"));
+                body.push_str(&format!("    let _ = string_println(via{i}(\"a{i}\"));\n"));
+                called.push(path);
+                labels.push("extern:called-from-helper".into());
+            }
+            2 => {
+                body.push_str(&format!("    let c{i} = |s: string| ext{i}(s);\n    let _ = string_println(c{i}(\"b{i}\"));\n"));
+                called.push(path);
+                labels.push("extern:called-from-closure".into());
+            }
+            3 => {
+                // only reachable from a function nobody calls
+                helpers.push_str(&format!("fn dead{i}(s: string) -> string {{ ext{i}(s) }}\n"));
+                labels.push("extern:called-from-dead-fn".into());
+            }
+            _ => {
+                body.push_str(&format!("    let _ = string_println(ext{i}(\"c{i}\"));\n"));
+                called.push(path);
+                labels.push("extern:called".into());
+            }
+        }
+    }
+    let text = format!("{decls}\n{helpers}\nfn main() {{\n{body}    ()\n}}\n");
+    Case::new(json!({"extern": true, "text": text, "labels": labels, "called": called}))
+}
+
+fn judge_extern_case(input: &Value, ctx: &mut Ctx) -> CaseOut {
+    let text = input["text"].as_str().unwrap_or("");
+    let key = fnv_str(text);
+    let labels: Vec<String> = input["labels"].as_array().map(|a| a.iter().filter_map(|x| x.as_str().map(String::from)).collect()).unwrap_or_default();
+    let called: Vec<String> = input["called"].as_array().map(|a| a.iter().filter_map(|x| x.as_str().map(String::from)).collect()).unwrap_or_default();
+    match goml::compile_single(ctx, text) {
+        CompileRes::Panic(_) => CaseOut::discard("compiler-panic"),
+        CompileRes::Err(e) => CaseOut::fail(
+            "C02|extern|rejected".into(),
+            format!("{:?}\n--- goml source\n{text}", goml::diag_messages(e.diagnostics())),
+            key,
+        ),
+        CompileRes::Ok(_, go) => {
+            if let GoCheck::Rejected(errs) = behave::go_check(&go) {
+                return CaseOut::fail(
+                    format!("C02|go-rejected|{}", errs[0].rule),
+                    format!("{}\n--- goml source\n{text}", behave::describe_go_errors(&errs, &go)),
+                    key,
+                )
+                .labelled(labels);
+            }
+            // the import block
+            let mut imports: Vec<String> = vec![];
+            let mut in_block = false;
+            let mut rest = String::new();
+            for l in go.lines() {
+                let t = l.trim();
+                if t.starts_with("import (") {
+                    in_block = true;
+                } else if in_block && t == ")" {
+                    in_block = false;
+                } else if in_block {
+                    imports.push(t.trim_matches('"').to_string());
+                } else {
+                    rest.push_str(l);
+                    rest.push('\n');
+                }
+            }
+            let uses = |binding: &str| -> bool {
+                let pat = format!("{binding}.");
+                let mut from = 0;
+                while let Some(i) = rest[from..].find(&pat) {
+                    let at = from + i;
+                    let before = rest[..at].chars().next_back();
+                    if !before.map_or(false, |c| c.is_alphanumeric() || c == '_' || c == '.') {
+                        return true;
+                    }
+                    from = at + pat.len();
+                }
+                false
+            };
+            let mut problems = vec![];
+            for (i, p) in imports.iter().enumerate() {
+                if imports[..i].contains(p) {
+                    problems.push(format!("import {p:?} is listed twice"));
+                }
+                let binding = p.rsplit('/').next().unwrap_or(p);
+                if !uses(binding) {
+                    problems.push(format!("{p:?} imported and not used"));
+                }
+            }
+            for (path, _) in GO_PKGS.iter() {
+                let binding = path.rsplit('/').next().unwrap_or(path);
+                if uses(binding) && !imports.iter().any(|p| p == path) {
+                    problems.push(format!("undefined: {binding} (package {path:?} is used but not imported)"));
+                }
+            }
+            for path in &called {
+                let binding = path.rsplit('/').next().unwrap_or(path);
+                if !uses(binding) {
+                    problems.push(format!("the call of the binding to {path:?} is not in the output"));
+                }
+            }
+            if let Some(first) = problems.first() {
+                let rule = if first.contains("not used") { "unused-import" } else if first.contains("undefined") { "undeclared" } else if first.contains("twice") { "redeclared" } else { "lost-call" };
+                return CaseOut::fail(format!("C02|extern|{rule}"), format!("{}\n--- go\n{go}\n--- goml source\n{text}", problems.join("\n")), key).labelled(labels);
+            }
+            CaseOut::pass(true, key).labelled(labels)
+        }
+    }
+}
+
 // -------------------------------------------------------------- the check
 
 fn nontrivial(kind: Kind, labels: &BTreeSet<String>, expected: &Expected) -> bool {
@@ -349,6 +525,9 @@ impl Check for ProgCheck {
         if matches!(self.kind, Kind::C01 | Kind::C02 | Kind::C07) {
             v.push(PhaseSpec { name: "multipkg", cases: tier.pick(20_000, 300_000), max_bytes: 520, exhaustive: false });
         }
+        if self.kind == Kind::C02 {
+            v.push(PhaseSpec { name: "extern", cases: tier.pick(4_000, 60_000), max_bytes: 48, exhaustive: false });
+        }
         if self.kind == Kind::C09 {
             v.push(PhaseSpec { name: "go", cases: tier.pick(2_000, 40_000), max_bytes: 80, exhaustive: false });
         }
@@ -381,6 +560,9 @@ impl Check for ProgCheck {
             let expected = Expected { stdout: out.as_bytes().to_vec(), end: Ok(crate::refsem::End::Normal) };
             return Case::new(json!({"text": text, "expected": expected.to_json(), "instances": {},
                 "labels": ["directed", format!("directed:{name}"), "generic-fn", "generic-call", "generic-call:composite", "adt:struct", "adt:enum", "tick"]}));
+        }
+        if phase == "extern" {
+            return make_extern_case(bytes);
         }
         if phase == "go" {
             return crate::gogen::make_go_case(bytes, if ctx.tier == Tier::Thorough { 1000 } else { 200 });
@@ -436,13 +618,16 @@ impl Check for ProgCheck {
         if case.input.get("go").is_some() {
             return crate::gogen::judge_go_case(&case.input, ctx);
         }
+        if case.input.get("extern").is_some() {
+            return judge_extern_case(&case.input, ctx);
+        }
         self.judge_text(&case.input, ctx)
     }
     fn setup(&self, _ctx: &mut Ctx) -> Result<Value, String> {
         behave::calibrate()
     }
     fn rule(&self) -> String {
-        let common = "type-directed random programs (construction, no rejection) over structs/enums (plain and generic), generic functions, closures, tuples, arrays, Vec, Ref, all 8 integer widths, strings, if/match/while/let patterns, with print 'ticks' planted in operands, arguments, conditions and branches, and every computed value printed; three size classes (<=18, <=60/120, <=120/300 nodes); in the multipkg phase (C01, C02, C07) the same programs are split over 2-3 packages (every item placed in a package not below the items it refers to, cross-package references qualified) and compiled as a project. Shapes excluded by construction because of open known findings are counted under excluded_by_gate. ";
+        let common = "type-directed random programs (construction, no rejection) over structs/enums (plain and generic), generic functions (in a share of the programs also traits, trait impls for nominal types / one instance of a generic type / integers / string / bool, inherent impls, method calls in every written form - Tr::m(x, a), x.m(a), T::m(x, a), p.m(a) and Tr::m(p, a) through one or two bounds, Tr::m(d, a) on a trait object - coercions to dyn Tr in annotated lets and arguments, trait objects passed on and captured by closures), closures, tuples, arrays, Vec, Ref, all 8 integer widths, strings, if/match/while/let patterns, with print 'ticks' planted in operands, arguments, conditions and branches, and every computed value printed; three size classes (<=18, <=60/120, <=120/300 nodes); in the multipkg phase (C01, C02, C07) the same programs are split over 2-3 packages (every item placed in a package not below the items it refers to, cross-package references qualified) and compiled as a project. Shapes excluded by construction because of open known findings are counted under excluded_by_gate. ";
         let oracle = match self.kind {
             Kind::C01 => "Oracle: stdout and end state (normal / failure kind) of the emitted Go run by the Go-subset interpreter equal the reference interpreter's run of the source model; corpus phase: the currently emitted Go of every corpus program reproduces the output recorded from real Go. Non-trivial = program prints >=1 line, uses ticks and >=4 distinct feature labels.",
             Kind::C02 => "Oracle: the emitted Go text parses and type-checks under the Go-subset checker (declared once/before use, assignability, call/return/composite literal typing, unused variables/imports, constant overflow, division by constant zero, missing return ...). Non-trivial = program declares a user type and uses a closure, function value or generic instantiation.",
@@ -461,10 +646,12 @@ impl Check for ProgCheck {
     }
     fn required_labels(&self, _tier: Tier) -> Vec<&'static str> {
         match self.kind {
-            Kind::C01 => vec!["tick", "match", "closure", "generic-call", "while", "end:Normal", "end:Failed(Index)", "multi-package"],
-            Kind::C02 => vec!["adt:struct", "adt:enum", "closure", "generic-call", "vec", "ref", "array", "multi-package"],
-            Kind::C07 => vec!["generic-call", "generic-call:composite", "mono-instances-checked"],
-            Kind::C08 => vec!["closure:capture", "closure:call"],
+            Kind::C01 => vec!["tick", "match", "closure", "generic-call", "while", "end:Normal", "end:Failed(Index)", "multi-package",
+                "method:trait-ufcs", "method:inherent-dot", "method:inherent-ufcs", "method:bound-dot", "method:bound-ufcs", "method:dyn", "dyn:coerce", "method:in-closure"],
+            Kind::C02 => vec!["adt:struct", "adt:enum", "closure", "generic-call", "vec", "ref", "array", "multi-package", "extern:segments-3", "extern:never-called", "extern:same-package-twice",
+                "method:trait-ufcs", "method:inherent-dot", "method:bound-dot", "method:dyn", "dyn:coerce", "fn:dyn-param", "impl:generic-instance", "impl:prim"],
+            Kind::C07 => vec!["generic-call", "generic-call:composite", "mono-instances-checked", "generic-call:bounded", "method:bound-dot", "method:bound-ufcs", "generic-fn:two-bounds"],
+            Kind::C08 => vec!["closure:capture", "closure:call", "method:in-closure", "closure:captures-dyn"],
             Kind::C09 => vec!["tick", "while:cond-effect", "end:Failed(DivZero)", "go", "go:all-schedules", "go:schedule-dependent-output"],
         }
     }
